@@ -73,6 +73,11 @@ func hasProp(f *FuncSpec, prop string) bool {
 			return true
 		}
 	}
+	for _, p := range f.Fresh {
+		if p == prop {
+			return true
+		}
+	}
 	check := func(cs []Clause) bool {
 		for _, c := range cs {
 			for _, p := range c.Props {
@@ -152,6 +157,7 @@ func cmdCheck(args []string) int {
 	os.MkdirAll(hintDir, 0o755)
 	hintsTried, hintsFailed := 0, 0
 	hintStale := map[string]bool{}
+	abstractedIn := map[string][]string{}
 	HintSolver = func(obls []*Obligation) {
 		(&Solver{Dir: hintDir, Timeout: 10, Par: solverPar(), Prelude: e.Prelude(), QFPrelude: e.QFPrelude(), Eng: e, noRetry: true}).SolveAll(obls)
 	}
@@ -210,6 +216,13 @@ func cmdCheck(args []string) int {
 		}
 		for _, u := range res.Unsupported {
 			unsupported = append(unsupported, k+": "+u)
+		}
+		if len(res.Abstracted) > 0 {
+			// On the unchanged tree every library function the verified code calls has a contract (spec/*.spec). A call
+			// without one is code the contracts do not know: its results are arbitrary, so an obligation that depends on
+			// them cannot be proved whether or not the property holds - a limit of the tool, not a violation (same rule as
+			// for stale contracts: a violation only with a failing input replayed on the real code).
+			abstractedIn[k] = res.Abstracted
 		}
 		for _, o := range res.Obligations {
 			if oblHasProp(o, prop) {
@@ -297,6 +310,9 @@ func cmdCheck(args []string) int {
 	for k := range hintStale {
 		staleFns[k] = true
 	}
+	for k := range abstractedIn {
+		staleFns[k] = true
+	}
 	for _, u := range unsupported {
 		oc.undecided = append(oc.undecided, "unsupported: "+u)
 		if k := strings.Index(u, ": "); k > 0 {
@@ -345,7 +361,11 @@ func cmdCheck(args []string) int {
 		// not reliable: a renamed local is enough to produce it. It counts as a violation only with a failing input
 		// replayed on the real code; otherwise it is reported as undecided.
 		if !found && len(obs) > 0 && staleFns[obs[0].Func] {
-			oc.undecided = append(oc.undecided, fmt.Sprintf("obligation %s failed, but the contract of %s no longer matches the code (hypotheses were lost) and the witness family has no failing input: not reported as a violation", id, obs[0].Func))
+			why := "the contract of " + obs[0].Func + " no longer matches the code (hypotheses were lost)"
+			if ab := abstractedIn[obs[0].Func]; len(ab) > 0 {
+				why = obs[0].Func + " calls " + strings.Join(ab, ", ") + ", for which there is no contract (results arbitrary)"
+			}
+			oc.undecided = append(oc.undecided, fmt.Sprintf("obligation %s failed, but %s and the witness family has no failing input: not reported as a violation", id, why))
 			continue
 		}
 		writeReplay(rp, prop, id, obs, found, wit)
